@@ -43,6 +43,7 @@ FLOORS = {"overlap_shared_type": 0.25, "tie": 0.3, "outcome_ok": 0.2, "outcome_t
 TICK = 1 / 256
 RESP_TYPES = [26, 25, 21, 27]  # Switch, Sensor, BinarySensor, TextSensor state responses (all have `key`)
 FOREIGN = 24  # LightStateResponse
+PONG = 8  # PingResponse: a legal response type for a call like any other, also while the keepalive's own ping is unanswered
 CLOSE_ERR = {"eof": "SocketClosedAPIError", "reset": "ReadFailedAPIError", "discreq": "APIConnectionError", "garbage": "ProtocolAPIError",
              "writefail": "SocketClosedAPIError", "pingfail": "PingFailedAPIError"}
 PING_K = 1.0  # keepalive of a "pingfail" case: the device answers no ping; death = 4.5 K after the first ping following a silent interval
@@ -267,7 +268,7 @@ def run_case(case: dict) -> CaseResult:
         for i, c in enumerate(calls):
             loop.sim_at(t0 + c["at"] * TICK, start_call, i)
         for tick, tid, key in case.get("msgs", []):
-            sess.device_send_at(t0 + tick * TICK, by_id[tid](key=key))
+            sess.device_send_at(t0 + tick * TICK, by_id[tid](key=key) if tid != PONG else by_id[tid]())
         for tick, i in case.get("cancels", []):
             loop.sim_at(t0 + tick * TICK, env.cancel, f"call{i}")
 
@@ -350,7 +351,7 @@ def run_case(case: dict) -> CaseResult:
         kind, val, ts, te = r
         if kind == "ok":
             got = "ok"
-            got_resp = [(wire.ids()[1][type(m)], m.key) for m in val]
+            got_resp = [(wire.ids()[1][type(m)], getattr(m, "key", 0)) for m in val]
         elif isinstance(val, TimeoutAPIError):
             got, got_resp = "timeout", None
         elif isinstance(val, asyncio.CancelledError):
@@ -480,6 +481,15 @@ def _case(draw, tier):
     if draw(st.integers(0, 2)) == 0:
         case["close"] = [draw(st.one_of(tick, st.sampled_from([m[0] for m in msgs] or [5]))), draw(st.sampled_from(sorted(CLOSE_ERR)))]
         if case["close"][1] == "pingfail":
+            if draw(st.booleans()):
+                # calls waiting for PingResponse (no key: predicates on the type only), the device sending some at will
+                for c in calls:
+                    if draw(st.booleans()):
+                        c["types"] = sorted(set(c["types"] + [PONG]))
+                        c["append"] = draw(st.sampled_from([None, ["type", PONG], ["never"]]))
+                        c["stop"] = draw(st.sampled_from([None, ["type", PONG], ["type", 26], ["never"]]))
+                for _ in range(draw(st.integers(1, 4))):
+                    msgs.append([draw(tick), PONG, 0])
             for m in msgs:  # arrivals never tie with a keepalive tick or the pong deadline
                 if m[0] % 128 == 0:
                     m[0] += 1
@@ -533,6 +543,11 @@ def enumerated(tier):
     for msgs in ([], [[3, 26, 1]], [[300, 24, 0], [700, 26, 2]]):
         yield {"noise": False, "calls": [{"at": 0, "types": [26], "append": None, "stop": ["never"], "timeout": 10}, {"at": 1100, "types": [25, 26], "append": None, "stop": None, "timeout": 10},
                                          {"at": 300, "types": [25], "append": None, "stop": None, "timeout": 2}], "msgs": msgs, "close": [0, "pingfail"]}
+    # a call waiting for PingResponse before / while the keepalive's own ping (tick 256, device silent) is unanswered
+    for at in (100, 250, 257, 300, 600):
+        for d in (1, 40, 200):
+            for types in ([PONG], [PONG, 26]):
+                yield {"noise": False, "calls": [{"at": at, "types": types, "append": None, "stop": None, "timeout": 2}], "msgs": [[at + d, PONG, 0], [at + d + 300, PONG, 0]], "close": [0, "pingfail"]}
     for how in sorted(CLOSE_ERR):
         for t in (0, 1, 5, 256, 257):
             yield {"noise": False, "calls": [{"at": 0, "types": [26], "append": None, "stop": ["never"], "timeout": 1}, {"at": 4, "types": [25], "append": None, "stop": None, "timeout": 2}], "msgs": [[3, 26, 1]], "close": [t, how]}
